@@ -991,9 +991,10 @@ func newWatchEventPeer(peer *peer, m *fsmMsg, newState, oldState bgp.FSMState, t
 	// Publish conf only after buildopen and capabilitiesFromConfig finish mutating it
 	// (capabilitiesFromConfig updates per-AFI GR advertised state).
 	peer.fsm.pConf.Update(&conf)
+	// recvOpen is written by the FSM goroutine under fsm.lock
+	recvOpen := peer.fsm.recvOpen
 	peer.fsm.lock.Unlock()
 
-	recvOpen := peer.fsm.recvOpen
 	e := &watchEventPeer{
 		Type:          t,
 		PeerAS:        conf.State.PeerAs,
